@@ -67,7 +67,9 @@ for meta in sorted(glob.glob(os.path.join(here,"preserving","*","meta.json"))):
     print("preserving-"+os.path.basename(dirn), "EQ:"+",".join(d["checks"]), os.path.join(dirn,"patch.diff"))
 for meta in sorted(glob.glob(os.path.join(here,"seeded","*","meta.json"))):
     d=json.load(open(meta)); dirn=os.path.dirname(meta)
-    print("seeded-"+os.path.basename(dirn), d["property"], os.path.join(dirn,"patch.diff"))
+    # kept changes that are documented as not breaking a claimed property are expected to be quiet
+    quiet = d.get("status","").startswith(("outside", "not a violation"))
+    print("seeded-"+os.path.basename(dirn), ("EQ:" if quiet else "")+d["property"], os.path.join(dirn,"patch.diff"))
 EOF
 while read -r name prop patch; do
   want "$name" || continue
